@@ -34,6 +34,8 @@ type source struct {
 	// the address width the tool itself chose for that machine (O resp. L of processor 0)
 	RomAddrs []int `json:"rom_addrs,omitempty"`
 	RamAddrs []int `json:"ram_addrs,omitempty"`
+	// what the source declares at the machine boundary: number of BM inputs, BM outputs and bonds (0,0,0 = not stated)
+	WantIO [3]int `json:"want_io,omitempty"`
 }
 
 func basmProgram(rsize int, lines []string, ins, outs []int) string {
@@ -63,23 +65,23 @@ func basmSweep(thorough bool) []source {
 	lens := []int{1, 2, 3, 4, 5, 8, 9, 16, 17, 32, 33, 64, 65}
 	for _, rs := range rsizes {
 		for _, r := range idx {
-			out = append(out, source{"basm", "register-index", basmProgram(rs, []string{fmt.Sprintf("inc r%d", r), "j _start"}, nil, nil), nil, false, nil, nil})
-			out = append(out, source{"basm", "register-index", basmProgram(rs, []string{fmt.Sprintf("rset r%d, 1", r), fmt.Sprintf("cpy r0, r%d", r), "r2o r0, o0", "j _start"}, nil, []int{0}), nil, false, nil, nil})
+			out = append(out, source{"basm", "register-index", basmProgram(rs, []string{fmt.Sprintf("inc r%d", r), "j _start"}, nil, nil), nil, false, nil, nil, [3]int{}})
+			out = append(out, source{"basm", "register-index", basmProgram(rs, []string{fmt.Sprintf("rset r%d, 1", r), fmt.Sprintf("cpy r0, r%d", r), "r2o r0, o0", "j _start"}, nil, []int{0}), nil, false, nil, nil, [3]int{}})
 		}
-		out = append(out, source{"basm", "register-index", basmProgram(rs, []string{"inc r256", "j _start"}, nil, nil), nil, false, nil, nil})
+		out = append(out, source{"basm", "register-index", basmProgram(rs, []string{"inc r256", "j _start"}, nil, nil), nil, false, nil, nil, [3]int{}})
 		for _, k := range idx {
 			if k > 32 {
 				continue
 			}
-			out = append(out, source{"basm", "input-index", basmProgram(rs, []string{fmt.Sprintf("i2r r0, i%d", k), "j _start"}, []int{k}, nil), nil, false, nil, nil})
-			out = append(out, source{"basm", "output-index", basmProgram(rs, []string{fmt.Sprintf("r2o r0, o%d", k), "j _start"}, nil, []int{k}), nil, false, nil, nil})
+			out = append(out, source{"basm", "input-index", basmProgram(rs, []string{fmt.Sprintf("i2r r0, i%d", k), "j _start"}, []int{k}, nil), nil, false, nil, nil, [3]int{}})
+			out = append(out, source{"basm", "output-index", basmProgram(rs, []string{fmt.Sprintf("r2o r0, o%d", k), "j _start"}, nil, []int{k}), nil, false, nil, nil, [3]int{}})
 			// all ports up to k attached
 			var all []int
 			for j := 0; j <= k; j++ {
 				all = append(all, j)
 			}
-			out = append(out, source{"basm", "input-index", basmProgram(rs, []string{fmt.Sprintf("i2r r0, i%d", k), "j _start"}, all, nil), nil, false, nil, nil})
-			out = append(out, source{"basm", "output-index", basmProgram(rs, []string{fmt.Sprintf("r2o r0, o%d", k), "j _start"}, nil, all), nil, false, nil, nil})
+			out = append(out, source{"basm", "input-index", basmProgram(rs, []string{fmt.Sprintf("i2r r0, i%d", k), "j _start"}, all, nil), nil, false, nil, nil, [3]int{}})
+			out = append(out, source{"basm", "output-index", basmProgram(rs, []string{fmt.Sprintf("r2o r0, o%d", k), "j _start"}, nil, all), nil, false, nil, nil, [3]int{}})
 		}
 		for _, l := range lens {
 			var lines []string
@@ -87,12 +89,12 @@ func basmSweep(thorough bool) []source {
 				lines = append(lines, "inc r0")
 			}
 			lines = append(lines, "j _start")
-			out = append(out, source{"basm", "program-length", basmProgram(rs, lines, nil, nil), nil, false, nil, nil})
+			out = append(out, source{"basm", "program-length", basmProgram(rs, lines, nil, nil), nil, false, nil, nil, [3]int{}})
 			// jump to a label on the last instruction
 			lines2 := append([]string{}, lines[:len(lines)-1]...)
 			lines2 = append(lines2, "jz r0, last")
 			lines2 = append(lines2, "last:\n\tj last")
-			out = append(out, source{"basm", "program-length", basmProgram(rs, lines2, nil, nil), nil, false, nil, nil})
+			out = append(out, source{"basm", "program-length", basmProgram(rs, lines2, nil, nil), nil, false, nil, nil, [3]int{}})
 		}
 		one := new(strings.Builder)
 		_ = one
@@ -107,12 +109,12 @@ func basmSweep(thorough bool) []source {
 			max, over = "18446744073709551615", nil
 		}
 		for _, v := range []string{"0", "1", "2", max, "0x0f", "0b101"} {
-			out = append(out, source{"basm", "immediate", basmProgram(rs, []string{"rset r0, " + v, "r2o r0, o0", "j _start"}, nil, []int{0}), nil, false, nil, nil})
-			out = append(out, source{"basm", "immediate", basmProgram(rs, []string{"mov r0, " + v, "r2o r0, o0", "j _start"}, nil, []int{0}), nil, false, nil, nil})
+			out = append(out, source{"basm", "immediate", basmProgram(rs, []string{"rset r0, " + v, "r2o r0, o0", "j _start"}, nil, []int{0}), nil, false, nil, nil, [3]int{}})
+			out = append(out, source{"basm", "immediate", basmProgram(rs, []string{"mov r0, " + v, "r2o r0, o0", "j _start"}, nil, []int{0}), nil, false, nil, nil, [3]int{}})
 		}
 		for _, v := range over {
-			out = append(out, source{"basm", "immediate-wider-than-register", basmProgram(rs, []string{"rset r0, " + v, "r2o r0, o0", "j _start"}, nil, []int{0}), nil, true, nil, nil})
-			out = append(out, source{"basm", "immediate-wider-than-register", basmProgram(rs, []string{"mov r0, " + v, "r2o r0, o0", "j _start"}, nil, []int{0}), nil, true, nil, nil})
+			out = append(out, source{"basm", "immediate-wider-than-register", basmProgram(rs, []string{"rset r0, " + v, "r2o r0, o0", "j _start"}, nil, []int{0}), nil, true, nil, nil, [3]int{}})
+			out = append(out, source{"basm", "immediate-wider-than-register", basmProgram(rs, []string{"mov r0, " + v, "r2o r0, o0", "j _start"}, nil, []int{0}), nil, true, nil, nil, [3]int{}})
 		}
 		// ROM data sections: code length × number of data cells around the powers of two (the ROM depth is
 		// inferred from code + data); one variable with k values and the `k:db` repetition form
@@ -130,7 +132,7 @@ func basmSweep(thorough bool) []source {
 				for _, decl := range []string{"tab db " + strings.Join(vals, ", "), fmt.Sprintf("big %d:db 0x7f", k)} {
 					src := basmProgram(rs, lines, nil, nil)
 					src = strings.Replace(src, "%meta cpdef p0 romcode: prog, ramsize:8", "%section consts .romdata\n\t"+decl+"\n%endsection\n\n%meta cpdef p0 romcode: prog, romdata: consts", 1)
-					out = append(out, source{"basm", "code-length×rom-data-cells", src, nil, false, nil, nil})
+					out = append(out, source{"basm", "code-length×rom-data-cells", src, nil, false, nil, nil, [3]int{}})
 				}
 			}
 		}
@@ -145,7 +147,7 @@ func basmSweep(thorough bool) []source {
 				for _, decl := range []string{fmt.Sprintf("big %d:db 0x7f", k), fmt.Sprintf("one db 0x01\n\tbig %d:db 0x7f", k)} {
 					src := basmProgram(rs, lines, nil, nil)
 					src = strings.Replace(src, "%meta cpdef p0 romcode: prog, ramsize:8", "%section consts .romdata\n\t"+decl+"\n%endsection\n\n%meta cpdef p0 romcode: prog, romdata: consts", 1)
-					out = append(out, source{"basm", "jump-widest×rom-data-cells", src, nil, false, nil, nil})
+					out = append(out, source{"basm", "jump-widest×rom-data-cells", src, nil, false, nil, nil, [3]int{}})
 				}
 			}
 		}
@@ -169,8 +171,38 @@ func basmSweep(thorough bool) []source {
 						src := basmProgram(rs, rb, nil, outs)
 						src = strings.Replace(src, "%meta cpdef p0 romcode: prog, ramsize:8",
 							"%section rcode .ramtext iomode:async\n\tentry _rs\n_rs:\n\t"+strings.Join(ram, "\n\t")+"\n%endsection\n\n%meta cpdef p0 romcode: prog, ramcode: rcode, execmode: "+mode, 1)
-						out = append(out, source{"basm", "rom-code+ram-code", src, nil, false, nil, nil})
+						out = append(out, source{"basm", "rom-code+ram-code", src, nil, false, nil, nil, [3]int{}})
 					}
+				}
+			}
+		}
+		// the machine boundary: a CP on i0/o0 plus k pass-through links (BM input straight to BM output), the two
+		// endpoints of every link in both statement orders, pass-through indices below and above the CP's
+		for k := 0; k <= 2; k++ {
+			for order := 0; order < 2; order++ {
+				for _, cpLast := range []bool{false, true} {
+					if k == 0 && (order == 1 || cpLast) {
+						continue
+					}
+					src := basmProgram(rs, []string{"i2r r0, i0", "r2o r0, o0", "j _start"}, nil, nil)
+					cpIdx := 0
+					first := 1
+					if cpLast {
+						cpIdx, first = k, 0
+					}
+					var metas []string
+					metas = append(metas, fmt.Sprintf("%%meta ioatt cin cp: p0, index:0, type:input\n%%meta ioatt cin cp: bm, index:%d, type:input", cpIdx))
+					metas = append(metas, fmt.Sprintf("%%meta ioatt cout cp: p0, index:0, type:output\n%%meta ioatt cout cp: bm, index:%d, type:output", cpIdx))
+					for t := 0; t < k; t++ {
+						a := fmt.Sprintf("%%meta ioatt pt%d cp: bm, index:%d, type:input", t, first+t)
+						b := fmt.Sprintf("%%meta ioatt pt%d cp: bm, index:%d, type:output", t, first+t)
+						if order == 1 {
+							a, b = b, a
+						}
+						metas = append(metas, a, b)
+					}
+					src = strings.Replace(src, "%meta bmdef global", strings.Join(metas, "\n")+"\n%meta bmdef global", 1)
+					out = append(out, source{FrontEnd: "basm", Class: "machine-boundary", Text: src, WantIO: [3]int{1 + k, 1 + k, 2 + k}})
 				}
 			}
 		}
@@ -204,7 +236,7 @@ func basmSweep(thorough bool) []source {
 					lines = append(lines, fmt.Sprintf("inc r%d", r))
 				}
 				lines = append(lines, "j _start")
-				out = append(out, source{"basm", "register-index×program-length", basmProgram(rs, lines, nil, nil), nil, false, nil, nil})
+				out = append(out, source{"basm", "register-index×program-length", basmProgram(rs, lines, nil, nil), nil, false, nil, nil, [3]int{}})
 			}
 		}
 	}
@@ -233,11 +265,11 @@ func bondgoSweep(thorough bool) []source {
 				fmt.Fprintf(&sb, "\tv0 = v0 + v%d\n", i)
 			}
 			sb.WriteString("\tbondgo.IOWrite(out0, v0)\n}\n")
-			out = append(out, source{"bondgo", "variable-count", sb.String(), []string{"-register-size", fmt.Sprint(rs)}, false, nil, nil})
+			out = append(out, source{"bondgo", "variable-count", sb.String(), []string{"-register-size", fmt.Sprint(rs)}, false, nil, nil, [3]int{}})
 			// register-resident variables
 			t := strings.ReplaceAll(sb.String(), "v", "reg_v")
 			t = strings.ReplaceAll(t, "reg_var", "var")
-			out = append(out, source{"bondgo", "register-variable-count", t, []string{"-register-size", fmt.Sprint(rs)}, false, nil, nil})
+			out = append(out, source{"bondgo", "register-variable-count", t, []string{"-register-size", fmt.Sprint(rs)}, false, nil, nil, [3]int{}})
 		}
 	}
 	return out
@@ -257,9 +289,9 @@ func neuralSweep(thorough bool) []source {
 	if err != nil {
 		return nil
 	}
-	out := []source{{"neuralbond", "example-net", string(b), nil, false, nil, nil}, {"neuralbond", "example-net", string(b), []string{"-chooser-min-word-size"}, false, nil, nil}}
+	out := []source{{"neuralbond", "example-net", string(b), nil, false, nil, nil, [3]int{}}, {"neuralbond", "example-net", string(b), []string{"-chooser-min-word-size"}, false, nil, nil, [3]int{}}}
 	if b2, err := os.ReadFile("/repo/cmd/neuralbond/net-testnormal.json"); err == nil && thorough {
-		out = append(out, source{"neuralbond", "example-net", string(b2), nil, false, nil, nil})
+		out = append(out, source{"neuralbond", "example-net", string(b2), nil, false, nil, nil, [3]int{}})
 	}
 	var net map[string]any
 	if json.Unmarshal(b, &net) != nil {
@@ -294,8 +326,8 @@ func neuralSweep(thorough bool) []source {
 			}
 		}
 		jb, _ := json.Marshal(map[string]any{"Nodes": nodes, "Weights": weights})
-		out = append(out, source{"neuralbond", "layer-width", string(jb), nil, false, nil, nil})
-		out = append(out, source{"neuralbond", "layer-width", string(jb), []string{"-chooser-min-word-size"}, false, nil, nil})
+		out = append(out, source{"neuralbond", "layer-width", string(jb), nil, false, nil, nil, [3]int{}})
+		out = append(out, source{"neuralbond", "layer-width", string(jb), []string{"-chooser-min-word-size"}, false, nil, nil, [3]int{}})
 	}
 	return out
 }
@@ -319,7 +351,7 @@ func quantumSweep(thorough bool) []source {
 				fmt.Fprintf(&sb, "\tcx\tq0, q%d\n", n-1)
 			}
 			sb.WriteString("%endblock\n\n%meta bmdef global main:code1\n")
-			out = append(out, source{"bmqsim", "qubit-count", sb.String(), []string{"-hw-flavor", flavor}, false, nil, nil})
+			out = append(out, source{"bmqsim", "qubit-count", sb.String(), []string{"-hw-flavor", flavor}, false, nil, nil, [3]int{}})
 		}
 	}
 	return out
@@ -534,6 +566,11 @@ func evaluate(s source) verdict {
 			if a >= 1<<bm.Domains[0].L {
 				v.fails = append(v.fails, wfFail{"address-beyond-the-memory-accepted", fmt.Sprintf("the source accesses RAM cell %d, the emitted machine has %d RAM cells (L=%d)", a, 1<<bm.Domains[0].L, bm.Domains[0].L)})
 			}
+		}
+	}
+	if s.WantIO != [3]int{} && bm != nil {
+		if got := [3]int{bm.Inputs, bm.Outputs, bm.EnumBonds()}; got != s.WantIO {
+			v.fails = append(v.fails, wfFail{"bond-graph-differs-from-source", fmt.Sprintf("the source declares %d BM inputs, %d BM outputs and %d bonds; the emitted machine has %d, %d and %d", s.WantIO[0], s.WantIO[1], s.WantIO[2], got[0], got[1], got[2])})
 		}
 	}
 	if s.MustReject {
